@@ -1,9 +1,9 @@
 #!/venv/bin/python
 """Collect confirmed seeded changes into /verif/seeded/<id>-mN/ and write seeded/RESULTS.md.
 
-  tools/seeded_collect.py <tests_results.txt>[,<tests_results of round 2>] <run-log.jsonl> [<run-log.jsonl> ...]
+  tools/seeded_collect.py <tests_results.txt>[,<tests_results of round 2>[,<round 3>]] <run-log.jsonl> [<run-log.jsonl> ...]
 
-changes whose directory lies under a path containing 'wt2' belong to round 2 and are stored as <id>-r2-mN.
+changes whose directory lies under .../wt2/ (.../wt3/) belong to round 2 (3) and are stored as <id>-r2-mN (<id>-r3-mN).
 
 run logs are the stdout of tools/seeded_run.py (one JSON object per line); a later log overrides an earlier one for the same
 change.  tests_results.txt has lines '<id> mN <pytest summary line>'."""
@@ -23,14 +23,14 @@ def main():
         for l in open(tests_file):
             p = l.split(None, 2)
             if len(p) == 3:
-                tests[(p[0], ('r2-' if k else '') + p[1])] = p[2].strip()
+                tests[(p[0], ('r%d-' % (k + 1) if k else '') + p[1])] = p[2].strip()
     res = {}
     for lg in logs:
         for l in open(lg):
             if not l.startswith('{'):
                 continue
             r = json.loads(l)
-            res[(r['property'], ('r2-' if 'wt2' in r['dir'] else '') + os.path.basename(r['dir']))] = r
+            res[(r['property'], ('r2-' if '/wt2/' in r['dir'] else 'r3-' if '/wt3/' in r['dir'] else '') + os.path.basename(r['dir']))] = r
     out = os.path.join(VERIF, 'seeded')
     os.makedirs(out, exist_ok=True)
     rows = []
@@ -55,7 +55,7 @@ def main():
             json.dump(meta, open(os.path.join(dst, 'meta.json'), 'w'), indent=1)
         rows.append((pid, m, meta.get('title', ''), ', '.join(meta.get('files', []))[:80], confirmed, r))
     lines = ['# Seeded changes and the checks that catch them', '',
-             'Produced by sub-agents (two rounds; r2 = second round, fresh agents) that saw only the property text and a scratch clone; confirmed here (patch applies, demo exits 0 on the pristine',
+             'Produced by sub-agents (three rounds; r2, r3 = later rounds with fresh agents on the then current tree) that saw only the property text and a scratch clone; confirmed here (patch applies, demo exits 0 on the pristine',
              'tree and 1 with the patch, 87 tests pass with the patch); run with `tools/seeded_run.py` against `./check <id> --tier quick`.', '',
              '| change | what was changed | confirmed | caught by the quick check | with a failing input | first violation reported |',
              '|---|---|---|---|---|---|']
